@@ -1,10 +1,15 @@
-import Knut.Proofs.SyntaxFormat
+import Knut.Proofs.SyntaxRoundTrip
+import Knut.Proofs.SyntaxExamples
 /-!
 # C08 — format preserves meaning and comments and is idempotent
 
-`format text f` is the model of `printer.Format` / `syntax.FormatFile` on the tree `f` the parser returned for
-`text` (`none` = a slice bound violated, Go's panic); `formatFile path text` is `formatRunner.formatFile`
-(parse first, buffer the whole result, then replace the file).
+`format text f` is the model of `printer.Format` / `syntax.FormatFile` applied to the tree `f` that the parser
+returned for `text` (`none` = a slice bound was violated, i.e. Go's panic); `formatFile path text` is
+`formatRunner.formatFile` (parse first, buffer the whole result, then replace the file).
+"The same directives with identical fields" is equality of `viewDirective`: the kind of the directive and the
+byte strings of its date, accounts, amounts, commodities, description/path, and — for transactions — of the
+`@accrue` fields and the `@performance` targets, in field order (so the textual order of annotations is
+normalised away, as the property allows). `text` ranges over all byte strings.
 -/
 namespace Knut.C08
 open Knut Knut.Syntax Knut.Spec.Syntax Knut.Utf8
@@ -15,6 +20,13 @@ theorem C08_unparseable_untouched {path : String} {text : Bytes} {e : Err} (h : 
     formatFile path text = .rejected e ∧ (formatFile path text).fileAfter text = text := by
   simp [formatFile, h, FormatOutcome.fileAfter]
 
+/-- **formatting a file that parses never panics** (no `Extract()` and no gap slice is out of range), so the
+command writes the formatted text. -/
+theorem C08_format_total {path : String} {text : Bytes} {f : File} (h : parseText path text = .ok f) :
+    ∃ out, format text f = some out ∧ formatFile path text = .written out := by
+  obtain ⟨out, _, hf, _⟩ := roundtrip h
+  exact ⟨out, hf, by simp [formatFile, h, hf]⟩
+
 /-- **all text between directives is kept byte for byte**: the output is `gap₀ ++ r₁ ++ gap₁ ++ … ++ gapₙ` with the
 input's own gap slices and `rᵢ` the rendering of directive `i` from the slices of its own fields. -/
 theorem C08_gaps_verbatim {text : Bytes} {f : File} {out : Bytes} (h : format text f = some out) :
@@ -22,5 +34,75 @@ theorem C08_gaps_verbatim {text : Bytes} {f : File} {out : Bytes} (h : format te
       out = interleave (gapsOf text 0 (f.directives.map (·.range))) rs := by
   obtain ⟨padding, rs, _, h1, h2⟩ := format_shape h
   exact ⟨padding, rs, h1, h2⟩
+
+/-- **the formatted text parses to the same sequence of directives with identical fields**, and the text outside
+its directives is, gap by gap, the text outside the directives of the input. -/
+theorem C08_reparse_same_fields {path : String} {text : Bytes} {f : File} {out : Bytes}
+    (h : parseText path text = .ok f) (ho : format text f = some out) :
+    ∃ f2, parseText path out = .ok f2 ∧
+      f2.directives.mapM (viewDirective out) = f.directives.mapM (viewDirective text) ∧
+      (f.directives.mapM (viewDirective text)).isSome = true ∧
+      gapsOf out 0 (f2.directives.map (·.range)) = gapsOf text 0 (f.directives.map (·.range)) := by
+  obtain ⟨out', f2, hf, hp, hv, hs, hg, _⟩ := roundtrip h
+  rw [ho] at hf
+  injection hf with hf
+  subst hf
+  exact ⟨f2, hp, hv, hs, hg⟩
+
+/-- **formatting the result again changes nothing.** -/
+theorem C08_idempotent {path : String} {text : Bytes} {f : File} {out : Bytes}
+    (h : parseText path text = .ok f) (ho : format text f = some out) :
+    ∃ f2, parseText path out = .ok f2 ∧ format out f2 = some out ∧ formatFile path out = .written out := by
+  obtain ⟨out', f2, hf, hp, _, _, _, hi⟩ := roundtrip h
+  rw [ho] at hf
+  injection hf with hf
+  subst hf
+  exact ⟨f2, hp, hi, by simp [formatFile, hp, hi]⟩
+
+/-- the whole property for the command: either the file parses, is replaced by a text that parses to the same
+directives and fields, with the same gaps, and is a fixed point of `format`; or it does not parse and stays as it is. -/
+theorem C08_command (path : String) (text : Bytes) :
+    (∃ f out f2, parseText path text = .ok f ∧ formatFile path text = .written out ∧ parseText path out = .ok f2 ∧
+        f2.directives.mapM (viewDirective out) = f.directives.mapM (viewDirective text) ∧
+        gapsOf out 0 (f2.directives.map (·.range)) = gapsOf text 0 (f.directives.map (·.range)) ∧
+        formatFile path out = .written out) ∨
+    (∃ e, parseText path text = .error e ∧ (formatFile path text).fileAfter text = text) := by
+  cases h : parseText path text with
+  | error e => exact Or.inr ⟨e, rfl, (C08_unparseable_untouched h).2⟩
+  | ok f =>
+    obtain ⟨out, f2, hf, hp, hv, _, hg, hi⟩ := roundtrip h
+    exact Or.inl ⟨f, out, f2, rfl, by simp [formatFile, h, hf], hp, hv, hg, by simp [formatFile, hp, hi]⟩
+
+/-! ## Non-vacuity -/
+
+/-- the worked example of C07 (a comment line and an `open` directive) is already formatted … -/
+example : format (bytesOf "#c\n2020-01-01 open A:B\n")
+    ⟨⟨0, 23⟩, [⟨⟨3, 22⟩, .open ⟨⟨3, 22⟩, ⟨⟨3, 13⟩⟩, ⟨⟨19, 22⟩, false⟩⟩⟩]⟩ = some (bytesOf "#c\n2020-01-01 open A:B\n") := by
+  decide
+
+/-- … and so is a fixed point of the command. -/
+example : formatFile "j.knut" (bytesOf "#c\n2020-01-01 open A:B\n") = .written (bytesOf "#c\n2020-01-01 open A:B\n") := by
+  obtain ⟨out, h1, h2⟩ := C08_format_total ex_parse
+  have : format (bytesOf exText) ⟨⟨0, 23⟩, [⟨⟨3, 22⟩, .open ⟨⟨3, 22⟩, ⟨⟨3, 13⟩⟩, ⟨⟨19, 22⟩, false⟩⟩⟩]⟩ = some (bytesOf exText) := by
+    decide
+  rw [this] at h1
+  injection h1 with h1
+  rw [← h1] at h2
+  exact h2
+
+/-- the renderer normalises: one blank between the parts, accounts padded to the common width, amounts right-aligned -/
+example : renderBooking 5 ⟨bytesOf "A", bytesOf "B:C", bytesOf "1.5", bytesOf "CHF"⟩ = bytesOf "A     B:C          1.5 CHF\n" := by
+  have r1 : runeCount (bytesOf "A") = 1 := by simp [runeCount, decodeAll_ascii (bytesOf "A") (by decide)]; decide
+  have r2 : runeCount (bytesOf "B:C") = 3 := by simp [runeCount, decodeAll_ascii (bytesOf "B:C") (by decide)]; decide
+  have r3 : runeCount (bytesOf "1.5") = 3 := by simp [runeCount, decodeAll_ascii (bytesOf "1.5") (by decide)]; decide
+  simp only [renderBooking, padRight, padLeft, r1, r2, r3]
+  decide
+
+/-- an unparseable file is rejected and untouched -/
+example : ∃ e, formatFile "j.knut" [0x32, 0xff] = .rejected e := ⟨_, (C08_unparseable_untouched ex_invalid).1⟩
+
+/-- `viewDirective` distinguishes directives: another account is another view -/
+example : viewDirective (bytesOf "2020-01-01 open A:B") ⟨⟨0, 19⟩, .open ⟨⟨0, 19⟩, ⟨⟨0, 10⟩⟩, ⟨⟨16, 19⟩, false⟩⟩⟩ ≠
+    viewDirective (bytesOf "2020-01-01 open A:C") ⟨⟨0, 19⟩, .open ⟨⟨0, 19⟩, ⟨⟨0, 10⟩⟩, ⟨⟨16, 19⟩, false⟩⟩⟩ := by decide
 
 end Knut.C08
